@@ -12,9 +12,10 @@
                     as_of_*, no sketch pre-filter and unbounded top_k (sorted ids)
    The model composes the candidate filter F and predicts the hit set as U restricted
    to F (nothing on an early exit).  Output = sorted distinct hit frame ids of the real
-   Memvid::search on the request, and the harness's own evaluation of the class predicate
-   of finding F-C11-1 (must equal the Coq predicate known_fallback that the theorems
-   `..._outside_known` exclude). *)
+   Memvid::search on the request, and the harness's own evaluation of the predicate
+   "the sketch stage hits its empty-intersection branch" (must equal the Coq predicate
+   sketch_disjoint: the class the monotonicity theorems `..._outside_known` exclude,
+   finding F-C11-2, and the class of the fixed finding F-C11-1). *)
 From MV Require Import Base.Prelude Model.AsOf.
 
 Definition C11_in :=
@@ -35,14 +36,14 @@ Definition C11_hits_gen (fx : bool) (i : C11_in) : list N :=
 Definition C11_class (i : C11_in) : bool :=
   let '(frames, ti, dr, aof, aot, flags, cands, U) := i in
   let '(hs, ht, ns) := flags in
-  known_fallback (mkStore (map mk_frame frames) ti hs) (mkReq dr None aof aot ht ns) cands.
+  sketch_disjoint (mkStore (map mk_frame frames) ti hs) (mkReq dr None aof aot ht ns) cands.
 
 Definition C11_run_gen (fx : bool) (i : C11_in) : C11_out := (C11_hits_gen fx i, C11_class i).
 
-(* the code as it is *)
-Definition C11_run : C11_in -> C11_out := C11_run_gen false.
-(* the repaired code (empty response instead of the sketch-only fallback) *)
+(* the code as it is (commit d76304f: keep the hard filters, drop the sketch) *)
 Definition C11_run_fixed : C11_in -> C11_out := C11_run_gen true.
+(* the code before d76304f (sketch-only fallback); kept to show that reverting is caught *)
+Definition C11_run : C11_in -> C11_out := C11_run_gen false.
 
 (* requests that top_k / doc_limit truncate: the implementation returns a subset of the
    model's hit set, with min(|model set|, max(top_k,1)) distinct frames.
@@ -55,5 +56,5 @@ Definition C11_trunc_run_gen (fx : bool) (i : C11_trunc_in) : C11_trunc_out :=
   let m := C11_hits_gen fx c in
   (forallb (fun h => mem_id h m) hits, N.min (N.of_nat (length m)) k, C11_class c).
 
-Definition C11_trunc_run : C11_trunc_in -> C11_trunc_out := C11_trunc_run_gen false.
 Definition C11_trunc_run_fixed : C11_trunc_in -> C11_trunc_out := C11_trunc_run_gen true.
+Definition C11_trunc_run : C11_trunc_in -> C11_trunc_out := C11_trunc_run_gen false.
